@@ -112,6 +112,9 @@ type hookState struct {
 	fg       atomic.Bool  // a foreground API call is in flight
 	mu       sync.Mutex
 	counters map[string]int // "<line>/<path>" -> events seen
+	parkArmed atomic.Bool
+	parked    atomic.Bool
+	release   chan struct{}
 }
 
 func (h *hookState) hook(op vfs.Op, path string) error {
@@ -133,6 +136,12 @@ func (h *hookState) hook(op vfs.Op, path string) error {
 	}
 	if p == "X" && cls != "wal" && cls != "manifest" {
 		return nil // table / value-log handles being closed: no effect on what recovery sees
+	}
+	if p == "C" && short == "sync" && cls == "wal" && h.parkArmed.CompareAndSwap(true, false) {
+		// hold the commit worker right before the sync of this commit until `join` releases it;
+		// the event itself is counted (and may be the kill point) when it is released
+		h.parked.Store(true)
+		<-h.release
 	}
 	line := int(h.curLine.Load())
 	ev := short + ":" + cls
@@ -172,6 +181,13 @@ func dbOptions(o opSpec, dir string, fs vfs.FS) *NoKV.Options {
 	opt.NumLevelZeroTables = 64
 	if o.L0 > 0 {
 		opt.NumLevelZeroTables = o.L0
+	}
+	if o.BS > 0 {
+		opt.MaxBatchSize = int64(o.BS)
+		opt.WriteBatchMaxSize = int64(o.BS)
+	}
+	if o.MR > 0 {
+		opt.ManifestRewriteThreshold = int64(o.MR)
 	}
 	opt.WriteHotKeyLimit = 0
 	return opt
@@ -242,6 +258,12 @@ func runChild(c *childCfg) {
 		return "ok"
 	}
 	bad := malformedLines(specs)
+	var (
+		group     []*NoKV.Txn // transactions of the current ptxn group
+		groupAt   int
+		asyncWG   sync.WaitGroup
+		asyncAcks atomic.Int64
+	)
 	t0 := time.Now()
 	timing := os.Getenv("VERIF_DISK_TIMING") != ""
 	for i := c.from; i < c.to && i < len(specs); i++ {
@@ -263,35 +285,90 @@ func runChild(c *childCfg) {
 			if db != nil {
 				settle(db)
 			}
-		case "txn":
+		case "txn", "vtxn":
 			if db == nil {
 				emit("r %d nodb", i)
 				continue
 			}
 			emit("b %d", i)
 			hs.fg.Store(true)
-			err := db.Update(func(txn *NoKV.Txn) error {
-				for _, e := range s.Ents {
-					if e.Len < 0 {
-						if err := txn.Delete(keyBytes(e.Key)); err != nil {
-							return err
-						}
-						continue
-					}
-					ent := kv.NewEntry(keyBytes(e.Key), valueBytes(i, e.Key, e.Len))
-					ent.ExpiresAt = expiryOf(e.Exp)
-					if err := txn.SetEntry(ent); err != nil {
-						return err
-					}
-				}
-				return nil
-			})
+			err := db.Update(func(txn *NoKV.Txn) error { return fillTxn(txn, i, s) })
 			hs.fg.Store(false)
 			if err != nil {
 				emit("r %d err:%s", i, errClass(err.Error()))
 			} else {
 				emit("r %d ack", i)
 			}
+			settle(db)
+			emit("s %d", i)
+		case "ptxn":
+			if db == nil {
+				emit("r %d nodb", i)
+				continue
+			}
+			emit("b %d", i)
+			if len(group) == 0 {
+				// first of a group: the transactions of the whole group are created now (a transaction
+				// started while an earlier commit is in flight would wait for it), then this one is
+				// committed with the worker parked before its sync:wal
+				for j := i; j < len(specs) && specs[j].Kind == "ptxn"; j++ {
+					group = append(group, db.NewTransaction(true))
+				}
+				groupAt = i
+				hs.fg.Store(true)
+				hs.release = make(chan struct{})
+				hs.parked.Store(false)
+				if openSpec.Sync {
+					hs.parkArmed.Store(true)
+				}
+			}
+			txn := group[i-groupAt]
+			if err := fillTxn(txn, i, s); err != nil {
+				emit("r %d err:%s", i, errClass(err.Error()))
+				continue
+			}
+			before := db.VerifQueueLen()
+			asyncWG.Add(1)
+			go func(line int) {
+				defer asyncWG.Done()
+				if err := txn.Commit(); err != nil {
+					emit("a %d err:%s", line, errClass(err.Error()))
+					return
+				}
+				emit("a %d ack", line)
+				asyncAcks.Add(1)
+			}(i)
+			// wait until the request is where the model puts it: the first one parked at its sync, the
+			// others in the queue behind it (in this order)
+			deadline := time.Now().Add(10 * time.Second)
+			for time.Now().Before(deadline) {
+				if i == groupAt {
+					if hs.parked.Load() || !openSpec.Sync {
+						break
+					}
+				} else if db.VerifQueueLen() > before {
+					break
+				}
+				time.Sleep(100 * time.Microsecond)
+			}
+			emit("r %d started", i)
+		case "join":
+			if db == nil {
+				emit("r %d nodb", i)
+				continue
+			}
+			if len(group) == 0 {
+				emit("r %d acks=0", i)
+				continue
+			}
+			if hs.parked.Load() {
+				close(hs.release)
+			}
+			asyncWG.Wait()
+			hs.parkArmed.Store(false)
+			hs.fg.Store(false)
+			emit("r %d acks=%d", i, asyncAcks.Swap(0))
+			group = nil
 			settle(db)
 			emit("s %d", i)
 		case "close":
@@ -332,6 +409,16 @@ func runChild(c *childCfg) {
 				continue
 			}
 			settle(db)
+			if s.Path == "rotate" {
+				db.VerifLSM().VerifRotate()
+				_, err := db.VerifLSM().VerifFlushOldest()
+				if err != nil {
+					emit("r %d err:%s", i, errClass(err.Error()))
+				} else {
+					emit("r %d done", i)
+				}
+				continue
+			}
 			res, err := db.VerifLSM().VerifCompact(s.Path)
 			if err != nil {
 				emit("r %d err:%s", i, errClass(err.Error()))
@@ -348,6 +435,7 @@ func runChild(c *childCfg) {
 				continue
 			}
 			emit("r %d %s", i, probe(db))
+			settle(db) // the probe commit may have rotated the memtable: its flush belongs to this line
 		case "kill":
 			emit("r %d armed", i)
 		}
@@ -356,6 +444,27 @@ func runChild(c *childCfg) {
 		fmt.Fprintf(os.Stderr, "t=%v end\n", time.Since(t0))
 	}
 	// the directory is thrown away by the parent: no need for a clean shutdown here
+}
+
+// fillTxn stages the entries of workload line `line` in txn.
+func fillTxn(txn *NoKV.Txn, line int, s opSpec) error {
+	for _, e := range s.Ents {
+		if e.Len < 0 {
+			if err := txn.Delete(keyBytes(e.Key)); err != nil {
+				return err
+			}
+			continue
+		}
+		ent := kv.NewEntry(keyBytes(e.Key), valueBytes(line, e.Key, e.Len))
+		ent.ExpiresAt = expiryOf(e.Exp)
+		if s.Kind == "vtxn" {
+			ent.Version = uint64(s.K) // the entry brings its own version; the commit still takes a timestamp
+		}
+		if err := txn.SetEntry(ent); err != nil {
+			return err
+		}
+	}
+	return nil
 }
 
 func errClass(s string) string {
@@ -420,12 +529,12 @@ func dump(db *NoKV.DB, specs []opSpec) string {
 	// the i-th update transaction of the history carries version i
 	var txnLines []int
 	for i, s := range specs {
-		if s.Kind == "txn" {
+		if isTxn(s.Kind) || s.Kind == "probe" { // a probe commit takes a timestamp too
 			txnLines = append(txnLines, i)
 		}
 	}
 	type group struct{ present, dangling, bad, extra, line int }
-	groups := map[uint64]*group{}
+	groups := map[any]*group{}
 	newest := map[string]struct {
 		ver    uint64
 		status string
@@ -452,32 +561,54 @@ func dump(db *NoKV.DB, specs []opSpec) string {
 		// which workload line wrote this version: the value says so (versions are reused after a
 		// crash that lost transactions); deletes and unreadable values fall back to the ordinal
 		if err == nil && ent.Meta&kv.BitDelete == 0 {
-			if ln := lineOfValue(ent.Value); ln >= 0 && ln < len(specs) && specs[ln].Kind == "txn" {
+			if ln := lineOfValue(ent.Value); ln >= 0 && ln < len(specs) && isTxn(specs[ln].Kind) {
 				lineOfVer[l.ver] = ln
 			}
 		}
 	}
+	type gkey struct {
+		ver  uint64
+		line int
+	}
+	hasKey := func(line int, key string) *entSpec {
+		if line < 0 || line >= len(specs) || !isTxn(specs[line].Kind) {
+			return nil
+		}
+		for j := range specs[line].Ents {
+			if string(keyBytes(specs[line].Ents[j].Key)) == key {
+				return &specs[line].Ents[j]
+			}
+		}
+		return nil
+	}
 	for _, l := range gots {
-		g := groups[l.ver]
-		if g == nil {
-			g = &group{line: -1}
-			groups[l.ver] = g
+		// the line that wrote this entry: what its own value says; else the ordinal of its version
+		// (the i-th committed transaction has version i); else what other entries of the version say
+		cands := []int{}
+		if l.err == nil && l.ent.Meta&kv.BitDelete == 0 {
+			cands = append(cands, lineOfValue(l.ent.Value))
 		}
+		if l.ver >= 1 && int(l.ver) <= len(txnLines) {
+			cands = append(cands, txnLines[l.ver-1])
+		}
+		if ln, ok := lineOfVer[l.ver]; ok {
+			cands = append(cands, ln)
+		}
+		line := -1
 		var want *entSpec
-		line, ok := lineOfVer[l.ver]
-		if !ok {
-			line = -1
-			if l.ver >= 1 && int(l.ver) <= len(txnLines) {
-				line = txnLines[l.ver-1]
+		for _, c := range cands {
+			if w := hasKey(c, l.key); w != nil {
+				line, want = c, w
+				break
 			}
 		}
-		g.line = line
-		if line >= 0 {
-			for j := range specs[line].Ents {
-				if string(keyBytes(specs[line].Ents[j].Key)) == l.key {
-					want = &specs[line].Ents[j]
-				}
-			}
+		if line < 0 && len(cands) > 0 {
+			line = cands[len(cands)-1]
+		}
+		g := groups[gkey{l.ver, line}]
+		if g == nil {
+			g = &group{line: line}
+			groups[gkey{l.ver, line}] = g
 		}
 		if want == nil {
 			g.extra++
@@ -519,20 +650,20 @@ func dump(db *NoKV.DB, specs []opSpec) string {
 			}{l.ver, status, val}
 		}
 	}
-	var vers []uint64
-	for v := range groups {
-		vers = append(vers, v)
+	var keys []gkey
+	for k := range groups {
+		keys = append(keys, k.(gkey))
 	}
-	sort.Slice(vers, func(i, j int) bool { return vers[i] < vers[j] })
-	var parts []string
-	for _, v := range vers {
-		g := groups[v]
-		total := "?"
-		if v >= 1 && int(v) <= len(txnLines) {
-			total = fmt.Sprint(len(specs[txnLines[v-1]].Ents))
+	sort.Slice(keys, func(i, j int) bool {
+		if keys[i].ver != keys[j].ver {
+			return keys[i].ver < keys[j].ver
 		}
-		_ = total
-		parts = append(parts, fmt.Sprintf("g:%d:%d:%d:%d:%d:%d", v, g.present, g.dangling, g.bad, g.extra, g.line))
+		return keys[i].line < keys[j].line
+	})
+	var parts []string
+	for _, k := range keys {
+		g := groups[k]
+		parts = append(parts, fmt.Sprintf("g:%d:%d:%d:%d:%d:%d", k.ver, g.present, g.dangling, g.bad, g.extra, g.line))
 	}
 	// point reads through the transactional API must agree with the listing
 	badReads := 0
